@@ -159,6 +159,8 @@ def run_job(job, cfg, scratch, keep=False, variant=None):
         cmd = ['goto-cc', '--function', job.entry] + defs + inc + [os.path.join(VERIF, job.harness), '-o', gb]
         rc, so, se, dt = sh(cmd, timeout=600, mem_gb=job.mem_gb)
         if rc != 0: raise Undecided('goto-cc failed: %s' % (se + so)[-3000:])
+        rc, so, se, dt = sh(['goto-instrument', '--drop-unused-functions', gb, gb], timeout=600, mem_gb=job.mem_gb)
+        if rc != 0: raise Undecided('goto-instrument --drop-unused-functions failed: %s' % (se + so)[-2000:])
         cur = gb
         if job.dfcc:
             gb2 = os.path.join(wd, 'b.gb')
@@ -179,7 +181,7 @@ def run_job(job, cfg, scratch, keep=False, variant=None):
               '--slice-formula']
         if job.unwind: cb += ['--unwind', str(job.unwind), '--unwinding-assertions']
         if job.objbits: cb += ['--object-bits', str(job.objbits)]
-        if job.solver: cb += [job.solver]
+        if job.solver != 'minisat': cb += ['--sat-solver', job.solver or 'cadical']
         cb += job.flags
         r.cmd = ' '.join(cb).replace(scratch, '$SCRATCH')
         rc, so, se, dt = sh(cb, timeout=job.timeout, mem_gb=job.mem_gb)
